@@ -83,6 +83,16 @@ def payloads(tier):
         else:
             init, ok, fault = ["def c := True", "if c then", "    self.a := 1", "self.b := self.a + 1", "self.a := 3"], False, ("prelude", 7)
         add("ctor-field-read", cls + ctxgen.indent(init, 2), ["def fo := F()"], ok, ["field-read:" + when], fault if not ok else None)
+    # the same rules for a field the class RE-DECLARES although a parent has one of the same name (same or another type, parent's with or without default)
+    for pdecl in ("def lim: Int := 10", "def lim: Int", "def lim: Float := 1.5"):
+        base = ["class RB", "    " + pdecl] + (["    def __init__(self) =>", "        self.lim := 1"] if ":=" not in pdecl else [])
+        off = len(base)
+        for when, init, ok in (("read-before", ["def r := self.lim", "self.lim := 20"], False), ("never-assigned", ['print("x")'], False),
+                               ("then-only", ["def c := True", "if c then", "    self.lim := 1", "def r := self.lim", "self.lim := 2"], False),
+                               ("assigned-then-read", ["self.lim := 20", "def r := self.lim"], True)):
+            cls = base + ["class RD: RB", "    def lim: Int", "    def __init__(self) =>"] + ctxgen.indent(init, 2)
+            fault = None if ok else ("prelude", off + 3 + (3 if when == "then-only" else 0 if when != "never-assigned" else -1))
+            add("ctor-redeclared-field", cls, ["def rdo := RD()"], ok, ["field-read:" + when, "parent-field:" + pdecl.replace("def lim", "").strip()], fault, run=False)
     # a field read in another method before any assignment (constructor never assigns it)
     add("method-field-read", ["class G", "    def a: Int", "    def __init__(self) =>", "        self.a := 1", "    def get(self) -> Int => self.a"], ["def go := G()", "print(go.get())"], True, ["field-read:method-after-init"])
     return out
